@@ -45,7 +45,7 @@ CONSTANTS
           SplitUser(_),  \*   string functions are tables instantiated for the universe of the run:
           SplitPw(_),    \*   SplitUser/SplitPw = first and second ':'-separated field of a key (getUserAndPasswordFromKey)
           InitActive,    \* set of initial maps namespace -> version (the namespaces loaded at start)
-          Paired,        \* TRUE: every prepare(n) is immediately followed by commit(n) (a well-formed reload)
+          Paired,        \* TRUE: every prepare(n) is followed by commit(n) before anything else but rejected submissions (a well-formed reload)
           WithBad,       \* TRUE: administrators also submit configurations the proxy rejects (a failing prepare)
           Fixed          \* FALSE: the algorithm as it is in manager.go; TRUE: the proposed repair
 
@@ -130,7 +130,7 @@ Init == /\ sc \in Scenarios
                        ELSE CEmpty]
         /\ flag = FALSE
         /\ pname = ""
-        /\ last = [op |-> "init", n |-> "", v |-> None, out |-> "ok", allowed |-> TRUE]
+        /\ last = [op |-> "init", n |-> "", v |-> None, out |-> "ok", allowed |-> TRUE, owed |-> ""]
 
 -----------------------------------------------------------------------------------
 (* I-level: outcome of an operation in the current state, then its effect *)
@@ -178,7 +178,11 @@ PStep(o, out) == /\ pactive' = PAfter(pactive, plast, o, out)
 Do(o) == /\ IStep(o)
          /\ PStep(o, OutOf(o))
          /\ last' = [op |-> o.op, n |-> o.n, v |-> o.v, out |-> OutOf(o),
-                     allowed |-> PAllowed(plast, o, OutOf(o))]
+                     allowed |-> PAllowed(plast, o, OutOf(o)),
+                     \* owed: the namespace whose commit a well-formed reload still owes (Paired only)
+                     owed |-> CASE o.op = "prepare" -> o.n
+                                [] o.op = "commit"  -> ""
+                                [] OTHER            -> last.owed]
          /\ UNCHANGED sc
 
 Free(n, v) == \A m \in NS \ {n} : pactive[m] = None \/ CredOf(sc, m, pactive[m]) \cap CredOf(sc, n, v) = {}
@@ -186,8 +190,9 @@ Free(n, v) == \A m \in NS \ {n} : pactive[m] = None \/ CredOf(sc, m, pactive[m])
 Enabled(o) == /\ o.op = "prepare" => Free(o.n, o.v)
               /\ o.op = "badprepare" => WithBad
               /\ IF ~Paired THEN TRUE
-                 ELSE IF last.op = "prepare" THEN o.op = "commit" /\ o.n = last.n
-                 ELSE o.op # "commit"
+                 ELSE IF last.owed # ""
+                      THEN (o.op = "commit" /\ o.n = last.owed) \/ o.op = "badprepare"   \* a rejected submission may come in between
+                      ELSE o.op # "commit"
 
 Try(o) == Enabled(o) /\ Do(o)
 
